@@ -61,28 +61,33 @@ Section Spec.
 Variable dec : bytes -> option bytes.
 Variable verdict : bytes -> bytes -> Z.
 
-(** the credentials an exchange carries: mechanism from the command line, the
-    initial response if the line has one, then the client's lines *)
+(** the Base64 texts of an exchange: the initial response if the command line
+    has one, then the client's lines *)
+Definition blobs_of (linein : bytes) (reads : list rdres) : list bytes :=
+  let lines := client_lines reads [] in
+  if Nat.ltb AUTH_IR_OFF (length linein) then skipn AUTH_IR_OFF linein :: lines else lines.
+
+(** the credentials they carry for mechanism [h] (0 = LOGIN: user, then password; else PLAIN) *)
+Definition creds_of_blobs (h : N) (blobs : list bytes) : option (bytes * bytes) :=
+  if N.eqb h 0 then
+    match blobs with
+    | b0 :: b1 :: _ =>
+        match dec b0, dec b1 with
+        | Some u, Some p => nonempty_pair u p
+        | _, _ => None
+        end
+    | _ => None
+    end
+  else
+    match blobs with
+    | b0 :: _ => match dec b0 with Some d => plain_creds d | None => None end
+    | [] => None
+    end.
+
 Definition expected (linein : bytes) (reads : list rdres) : option (bytes * bytes) :=
   match mech_of (skipn AUTH_TYPE_OFF linein) AUTH_MECHS with
   | None => None
-  | Some h =>
-      let lines := client_lines reads [] in
-      let blobs := if Nat.ltb AUTH_IR_OFF (length linein) then skipn AUTH_IR_OFF linein :: lines else lines in
-      if N.eqb h 0 then                                   (* LOGIN: user, then password *)
-        match blobs with
-        | b0 :: b1 :: _ =>
-            match dec b0, dec b1 with
-            | Some u, Some p => nonempty_pair u p
-            | _, _ => None
-            end
-        | _ => None
-        end
-      else                                                 (* PLAIN *)
-        match blobs with
-        | b0 :: _ => match dec b0 with Some d => plain_creds d | None => None end
-        | [] => None
-        end
+  | Some h => creds_of_blobs h (blobs_of linein reads)
   end.
 
 Definition spec_permitted (c : acfg) : bool :=
